@@ -227,6 +227,70 @@ theorem real_roundtrip (hu : u.Good) (nar : F → F) (pre : Pre) (post : Post) (
     toSI_identity narrow isSentinel u hu, fromSI_identity narrow isSentinel u hu]
   all_goals (try (rw [fromSI_identity narrow isSentinel u hu] at hrep; simp [hrep]))
 
+/-- Product of the conversion factors along a chain of measures. -/
+def chainFrom : List String → F
+  | [] => 1
+  | m :: ms => u.ffrom m * chainFrom ms
+
+def chainTo : List String → F
+  | [] => 1
+  | m :: ms => u.fto m * chainTo ms
+
+theorem chain_factors (hu : u.Good) (ms : List String) : chainTo u ms * chainFrom u ms = 1 := by
+  induction ms with
+  | nil => simp [chainTo, chainFrom]
+  | cons m ms ih =>
+    simp only [chainTo, chainFrom]
+    have h := hu.recip m
+    calc u.fto m * chainTo u ms * (u.ffrom m * chainFrom u ms)
+        = (u.fto m * u.ffrom m) * (chainTo u ms * chainFrom u ms) := by ring
+      _ = 1 := by rw [h, ih]; ring
+
+theorem fromSIChain_scale (ms : List String) (hoff : ∀ m ∈ ms, u.off m = 0) (x : F) :
+    fromSIChain (fieldOps narrow isSentinel) u ms x = chainFrom u ms * x := by
+  induction ms with
+  | nil => simp [fromSIChain, chainFrom]
+  | cons m ms ih =>
+    have h0 : u.off m = 0 := hoff m (by simp)
+    have ih' := ih (fun m' hm' => hoff m' (by simp [hm']))
+    simp only [fromSIChain, chainFrom, ih']
+    simp [fromSI, fieldOps, h0]
+    ring
+
+theorem toSIChain_scale (ms : List String) (hoff : ∀ m ∈ ms, u.off m = 0) (y : F) :
+    toSIChain (fieldOps narrow isSentinel) u ms y = chainTo u ms * y := by
+  induction ms with
+  | nil => simp [toSIChain, chainTo]
+  | cons m ms ih =>
+    have h0 : u.off m = 0 := hoff m (by simp)
+    have ih' := ih (fun m' hm' => hoff m' (by simp [hm']))
+    simp only [toSIChain, chainTo, ih']
+    simp [toSI, fieldOps, h0]
+    ring
+
+/-- `exactScale` class, nested conversions (SCON StaticDFacCorrCoeff: [D]·[viscosity]): with offset-free measures the
+reader's `to_si(m1, to_si(m2, …))` undoes the writer's `from_si(m1, from_si(m2, …))`. -/
+theorem chain_roundtrip (hu : u.Good) (ms : List String) (hoff : ∀ m ∈ ms, u.off m = 0) (x : F) :
+    toSIChain (fieldOps narrow isSentinel) u ms (fromSIChain (fieldOps narrow isSentinel) u ms x) = x := by
+  rw [fromSIChain_scale narrow isSentinel u ms hoff, toSIChain_scale narrow isSentinel u ms hoff, ← mul_assoc,
+    chain_factors u hu ms, one_mul]
+
+/-- `exactScale` class, k-fold unit factor (RSEG SegArea: length², …): `from_si(m, … from_si(m, 1)) * x` read back by
+k nested `to_si(m, ·)`. -/
+theorem unitpow_roundtrip (hu : u.Good) (m : String) (k : Nat) (hoff : u.off m = 0) (x : F) :
+    let o := fieldOps narrow isSentinel
+    toSIChain o u (List.replicate k m) (o.mul (fromSIChain o u (List.replicate k m) (o.ofInt 1)) x) = x := by
+  intro o
+  have hall : ∀ m' ∈ List.replicate k m, u.off m' = 0 := by
+    intro m' hm'
+    rw [List.eq_of_mem_replicate hm']; exact hoff
+  rw [fromSIChain_scale narrow isSentinel u _ hall, toSIChain_scale narrow isSentinel u _ hall]
+  have h1 := chain_factors u hu (List.replicate k m)
+  simp only [fieldOps, o]
+  calc chainTo u (List.replicate k m) * (chainFrom u (List.replicate k m) * ((1 : Int) : F) * x)
+      = (chainTo u (List.replicate k m) * chainFrom u (List.replicate k m)) * x := by push_cast; ring
+    _ = x := by rw [h1, one_mul]
+
 /-- Restart of a restart is stable: re-encoding the decoded value reproduces the stored element
 (needs only that narrowing is idempotent). -/
 theorem encode_decode_encode (hu : u.Good) (hn : ∀ z, narrow (narrow z) = narrow z) (m : String) (x : F) :
